@@ -46,13 +46,25 @@ type c13slot struct {
 }
 
 func runC13(c *core.Ctx) {
-	e := liquid.NewEngine()
-	RegisterCustom(e) // {% xecho %} without arguments: a hyphen inside such a tag must stay a trim marker
+	// four engines that all have the default delimiters: untouched, and configured through Delims with empty strings
+	// (which stand for the defaults) in all or some positions
+	var engines []*liquid.Engine
+	for _, d := range [][4]string{{}, {"", "", "", ""}, {"{{", "}}", "", ""}, {"", "", "{%", "%}"}} {
+		en := liquid.NewEngine()
+		if len(engines) > 0 {
+			en.Delims(d[0], d[1], d[2], d[3])
+		}
+		RegisterCustom(en) // {% xecho %} without arguments: a hyphen inside such a tag must stay a trim marker
+		engines = append(engines, en)
+	}
+	c13Partials(c, engines[0])
 	n := c.Pick(700, 14000)
 	for i := 0; i < n; i++ {
 		if !c.Mine(i) {
 			continue
 		}
+		e := engines[(i/c.NShards)%len(engines)]
+		c.Obs(fmt.Sprintf("engine_variant_%d", (i/c.NShards)%len(engines)), 1)
 		r := c.Rand(i)
 		env := gen.StdEnv(r)
 		f := gen.Features{Loops: true, Tablerow: i%7 == 0, Cycle: true, Capture: true, Assign: true, Case: true, RawComment: true, Filters: true,
@@ -296,6 +308,47 @@ func runC13(c *core.Ctx) {
 				c.Violate("strong|differs-from-whitespace-deleted-template", "with every hyphen facing literal text (or an unrendered comment body), the output must equal that of the template with the hyphens dropped and the adjacent whitespace deleted",
 					wit(map[string]any{"whitespace_deleted_template": firstSrc, "whitespace_deleted_result": firstT.Brief()}))
 				break
+			}
+		}
+	}
+}
+
+// c13Partials: a hyphen acts on the literal text next to it in ITS OWN source. What an included file renders is
+// inserted where the include stands; the includer's text around the tag is not adjacent to any marker inside the
+// file, and the file's text is not adjacent to a marker on the include tag... except through the tag's own hyphens,
+// which face the includer's text only.
+func c13Partials(c *core.Ctx, e *liquid.Engine) {
+	if c.Shard != 3%c.NShards || !c.Begin("partials family") {
+		return
+	}
+	parts := []string{"[{{ y -}}", "{{- y }}]", "  {{- y -}}  ", "[{% if t -%} in {%- endif -%}", "{%- assign q = 1 -%}", " \n{%- comment %}c{% endcomment -%}\n ", "plain ", "{{ y }}", "{%- for i in (1..2) -%} {{ i }} {%- endfor -%}"}
+	arounds := [][2]string{{"a ", " \n\t z"}, {" \n", "\n "}, {"a", "z"}, {"  ", "  "}, {"x\t", "\ty"}}
+	b := map[string]any{"y": "Y", "t": true}
+	for pi, p := range parts {
+		name := fmt.Sprintf("c13part%d.html", pi)
+		if _, pr := core.ParseCache(e, p, name, 1); !pr.OK() {
+			continue
+		}
+		alone := core.Run(e, p, b)
+		if !alone.OK() {
+			continue
+		}
+		for _, ar := range arounds {
+			for _, wrap := range []string{"%s", "{%% for k in (1..2) %%}%s{%% endfor %%}", "{%% if t %%}%s{%% endif %%}", "{%% capture cc %%}%s{%% endcapture %%}{{ cc }}"} {
+				inner := ar[0] + "{% include '" + name + "' %}" + ar[1]
+				src := fmt.Sprintf(wrap, inner)
+				want := ar[0] + alone.Out + ar[1]
+				if strings.Contains(wrap, "for k") {
+					want += want
+				}
+				res := core.Run(e, src, b)
+				c.Eval(1)
+				c.Obs("partial_cases", 1)
+				c.Distinct("partial", src)
+				if !res.OK() || res.Out != want {
+					c.Violate("partial|"+resClass(res), "a whitespace-control marker inside an included file reached the text of the including template (or the other way round): the text around an include tag without hyphens is emitted unchanged, around exactly what the file renders on its own",
+						map[string]any{"included_file": p, "source": src, "expected": want, "observed": res.Brief()})
+				}
 			}
 		}
 	}
